@@ -92,6 +92,11 @@ class FrameModel:
             g['_frame_splits'] = g.get('_frame_splits', []) + [(t, n, A, B)]
             return A, B
 
+        def py_start(I, t, b):
+            """start offset of t[b:] with Python slice semantics (negative b counts from the end; -0 == 0)"""
+            ln = z3.Length(t)
+            return z3.If(b < 0, z3.If(ln + b < 0, 0, ln + b), z3.If(b > ln, ln, b))
+
         def frame_index(I, ix, sl, fr):
             v = ix.frame
             if ix.kind == 'iloc' and isinstance(sl, ast.Slice) and sl.step is None:
@@ -99,11 +104,11 @@ class FrameModel:
                     n = z3.simplify(I.num(I.eval(sl.upper, fr)))
                     if z3.is_int_value(n) and n.as_long() == 0:
                         return VFrame(z3.Empty(SeqRowS))
-                    A, B = split(I, v.t, n)
+                    A, B = split(I, v.t, z3.simplify(py_start(I, v.t, n)))
                     return VFrame(A)
                 if sl.upper is None and sl.lower is not None:
                     n = z3.simplify(I.num(I.eval(sl.lower, fr)))
-                    A, B = split(I, v.t, n)
+                    A, B = split(I, v.t, z3.simplify(py_start(I, v.t, n)))
                     return VFrame(B)
             h = getattr(self, 'frame_index_extra', None)
             if h is not None:
@@ -147,7 +152,7 @@ class DfContract(FrameModel, Contract):
         return I
 
     def globals(self):
-        return {'Number': sym.VClass('Number'), 'np': VBuiltin('np'), 'pd': VBuiltin('pd')}
+        return {'Number': sym.VClass('Number'), 'np': VBuiltin('np'), 'pd': VBuiltin('pd'), 'deque': VBuiltin('deque')}
 
     def finish(self, I, args):
         self.pre_args = args
